@@ -65,7 +65,7 @@ def strata(tier):
     return [
         {"name": "ab./*?^5 x ab./^5", "pa": "ab./*?", "ta": "ab./", "pn": 5, "tn": 5, "bases": ["", "/b"], "shards": 5},
         {"name": "a/*?.^4 x a./*?^5 (wildcard characters in paths, longer bases)", "pa": "a/*?.", "ta": "a./*?", "pn": 4, "tn": 5,
-         "bases": ["", "/a/b", "/b/"], "shards": 5},
+         "bases": ["/a/b", "/b/"], "shards": 4},
     ]
 
 
@@ -233,7 +233,7 @@ def select_all(n, seed, work, pool):
     results = list(pool.map(lambda c: select_run(c, root), cases))
     obs = [r[0] for r in results]
     runs = {r[0]["id"]: r[1] for r in results}
-    nsh = 2 if n <= 1500 else 4
+    nsh = 3 if n <= 1500 else 4
     parts = [obs[k::nsh] for k in range(nsh)]
     judged = list(pool.map(lambda k: select_judge(genv, work, parts[k], k), range(nsh)))
     nums = {key: sum(j[0][key] for j in judged) for key in ("cases", "bad", "deciding", "withopen", "files")}
@@ -294,7 +294,7 @@ def main(tier, seed, replay=None):
         return do_replay(replay, exe)
     work = vlib.mktmp("c31w")
     sts = strata(tier)
-    nsel = 400 if tier == "quick" else 6000
+    nsel = 300 if tier == "quick" else 3000
     lawshards = 1 if tier == "quick" else 5
     # 1-2: enumerate the matcher case spaces and replay them into the real matcher
     for i, st in enumerate(sts):
@@ -313,7 +313,7 @@ def main(tier, seed, replay=None):
             for k in range(st["shards"]):
                 jobs.append((st, pool.submit(matcher_judge, st["genv"], st["work"], k, 5400)))
         lawjobs = [pool.submit(law_one, k) for k in range(lawshards)]
-        with ThreadPoolExecutor(3) as pool2:
+        with ThreadPoolExecutor(4) as pool2:
             cases, obs, runs, selnums, selbad = select_all(nsel, seed, work, pool2)
         phase("file selection: %d trees run and judged" % nsel)
         for st in sts:
@@ -362,7 +362,7 @@ def main(tier, seed, replay=None):
         violations.append({"key": c["key"], "what": c["what"], "replay": p})
     if allbad:
         allp = vlib.save_replay(PID, "all-%s" % tier, {"kind": "list", "count": len(allbad),
-                                                       "cases": [{k: v for k, v in c.items() if k in ("kind", "p", "t", "base", "mode", "got", "want", "key", "what")} for c in allbad[:200000]]})
+                                                       "cases": [{k: v for k, v in c.items() if k in ("kind", "p", "t", "base", "mode", "got", "want", "key", "what", "case")} for c in allbad[:200000]]})
     rc, new, kn = vlib.verdict(PID, violations)
     if len(unknown) > new:
         print("  ... and %d more failing cases, %d distinct failing patterns in all (every failing case of this run: %s)" % (
